@@ -52,7 +52,7 @@ def engine_case(draw):
         "names": draw(st.sampled_from(["plain", "sensitive"])),
         # credentials supplied by an auth provider registered on the schema: a provider class that writes a header, or a
         # `requests` auth object (set_from_requests); only drawn into runs without --auth / -H Authorization (see below)
-        "provider": draw(st.sampled_from([None, None, None, None, "class", "requests-basic", "requests-custom"])),
+        "provider": draw(st.sampled_from([None, None, None, None, "class", "class-falsy-data", "requests-basic", "requests-custom"])),
         "unique_inputs": draw(st.booleans()),
     }
     if inp["provider"]:
@@ -126,6 +126,17 @@ def check_engine(ctx: Ctx, inp) -> None:
 
                 def set(self, case, data, context):
                     case.headers = {**(case.headers or {}), "Authorization": f"Bearer {data}"}
+
+        elif provider == "class-falsy-data":
+            # a provider with nothing to fetch (a static secret, request signing): `get` returns an empty value, `set` still applies
+
+            @schema.auth()
+            class StaticProvider:
+                def get(self, case, context):
+                    return {}
+
+                def set(self, case, data, context):
+                    case.headers = {**(case.headers or {}), "Authorization": "Bearer PROVIDER-TOKEN"}
 
         elif provider == "requests-basic":
             schema.auth.set_from_requests(requests.auth.HTTPBasicAuth("prov", "pw"))
